@@ -9,6 +9,8 @@ A case is
 origins: "new" (Font()), "ufo3"/"ufo2" (Font(path) on a UFO written with fontTools.ufoLib),
 "deser" (Font().setDataFromSerialization(hand-made dict)), "deser_rt" (…(getDataForSerialization()
 of a loaded font)).  Output 0 is the observation of the start state, output i+1 that after ops[i].
+`lazy=True` (loaded origins): font.lib is not touched before the first operation, so the first callback
+itself triggers the lazy read of lib.plist; the start observation is then what ufoLib wrote.
 """
 import os
 import shutil
@@ -30,6 +32,8 @@ ASSUMPTIONS = [
     "no user-level hold/disable of the layers' or the font's notifications (delivery itself is C04's subject)",
     "glyph order values are lists of strings (or None); glyph and layer names are non-empty strings",
     "the default layer is never deleted; layers are not renamed; no external changes / reload",
+    "operations address glyphs through layer[name]; glyph objects that were replaced or deleted (no longer in the font) are "
+    "not renamed afterwards (a replaced loaded glyph stays observed by its layer: finding F16, C11's subject)",
     "renaming a glyph onto a name that exists in the same layer silently replaces that glyph (code as it is); only the name "
     "sets and the order are compared",
 ]
@@ -269,7 +273,10 @@ def gen_case(rng, maxlen):
         op = _gen_op(rng, tr, pool, origin)
         ops.append(op)
         tr.apply(op)
-    return dict(origin=origin, init=init, ops=ops)
+    case = dict(origin=origin, init=init, ops=ops)
+    if origin in ("ufo3", "ufo2") and rng.random() < 0.5:
+        case["lazy"] = True
+    return case
 
 
 def generate(rng, tier):
@@ -536,7 +543,14 @@ def run_impl(case):
         w = World(case, tmp)
         outs = []
         trace = []
-        before = w.observe()
+        if case.get("lazy") and case["origin"] in ("ufo3", "ufo2"):
+            # do not touch font.lib before the first operation: the first callback then triggers the lazy
+            # read of lib.plist itself.  The start observation is what ufoLib wrote to disk.
+            init = case["init"]
+            before = (list(init["lib"] or []), None if init["lib"] is None else list(init["lib"]),
+                      [(l.name, sorted(l.keys())) for l in w.font.layers])
+        else:
+            before = w.observe()
         outs.append(_enc_obs(Atom("ok"), before))
         for op in case["ops"]:
             err = None
@@ -553,6 +567,8 @@ def run_impl(case):
             before = after
         viol, stats, nontrivial = oracle(case, trace)
         stats["origin." + case["origin"]] = 1
+        if case.get("lazy"):
+            stats["origin.lazy-lib"] = 1
         if case.get("init"):
             stats["startorder." + case["init"].get("kind", "?")] = 1
         stats["len"] = len(case["ops"])
